@@ -87,6 +87,8 @@ class Control(BaseAPIClass):
         else:
             pre_post = 'pre'
 
+        control_operation = np.array(control_operation, dtype=NpDtype)
+
         if isinstance(time, int):
             steps = self._step_controls[pre_post].keys()
             if time in steps:
